@@ -865,15 +865,13 @@ def r01_10(ctx):
                 continue
             n += 1
             guard = None
-            for cb, ct in f.calls():
-                if callee_is(ct, "is_none", "is_some") and f.dominates(cb, b):
-                    from ..analysis import bool_switch_edges
-                    e = bool_switch_edges(f, ct["dest"][0])
-                    if e:
-                        inside = e[0] if callee_is(ct, "is_none") else e[1]
-                        other = e[1] if callee_is(ct, "is_none") else e[0]
-                        if b in f.reachable_from(inside) and b not in f.reachable_from(other, avoid={inside}):
-                            guard = "the slot group is still empty (first member wins)"
+            from ..analysis import option_test_edges
+            for cb, ct, t_edge, f_edge, clo in option_test_edges(prog, f, ("is_none",)):
+                if f.dominates(cb, b) and b in f.reachable_from(t_edge) and b not in f.reachable_from(f_edge, avoid={t_edge}):
+                    guard = "the slot group is still empty (first member wins)"
+            for cb, ct, t_edge, f_edge, clo in option_test_edges(prog, f, ("is_some",)):
+                if clo is None and f.dominates(cb, b) and b in f.reachable_from(f_edge) and b not in f.reachable_from(t_edge, avoid={f_edge}):
+                    guard = "the slot group is still empty (first member wins)"
             for bb, ii, ss in f.assigns():
                 r2 = ss["rv"]
                 if r2["k"] == "binop" and r2["op"] in ("Ge", "Gt", "Le", "Lt") and f.dominates(bb, b):
@@ -1063,6 +1061,70 @@ def r01_13(ctx, crates=("sonic_rs", "sonic_number"), floor=40):
                 f"{len(good)} discharged + {len(soft)} otherwise guarded of the {want} sites discharged on the audited tree, {len(bad)} unguarded (audited: {max_bad}); {o0['desc']}: {o0['detail']} ({o0['verdict']})") + f" - {why}")
 
 
+def r01_14(ctx):
+    """data borrowed for 'de lives in the caller's buffer: a JsonInput implemented for a reference gives the reader either
+    the borrowed bytes themselves or an owner that shares the caller's buffer.  The reader pins what it is given and
+    hands out `&'de` data pointing into it; a FastStr clone copies an inlined (short) string, so wrapping a clone is
+    allowed only under a test that the clone's bytes are the caller's bytes"""
+    prog = ctx.prog()
+    ims = [im for im in prog.impls if im["trait"] == "sonic_rs::input::JsonInput"]
+    ctx.floor("R01.14", "impl JsonInput", len(ims), 5)
+    for im in ims:
+        f = prog.fns.get(im["methods"].get("to_json_slice", ""))
+        ty = im["self_ty"]
+        if f is None:
+            ctx.ob("R01.14", f"to_json_slice:{ty}", False, "", "to_json_slice not found")
+            continue
+        if not ty.startswith("&"):
+            continue
+        aggs = [(b, i, s) for b, i, s in f.assigns() if s["rv"]["k"] == "agg" and s["rv"].get("adt", "").endswith("input::JsonSlice")]
+        ok = bool(aggs)
+        why = []
+        for b, i, s in aggs:
+            var = s["rv"].get("variant")
+            if var == "Raw":
+                # the borrowed bytes themselves
+                l = op_local(s["rv"]["f"][0])
+                sl, leaves = backward_slice(f, [l]) if l is not None else (set(), [])
+                good = any(lf[0] == "param" and lf[1] == 1 for lf in leaves)
+                why.append("borrows the caller's bytes" if good else "Raw slice not derived from self")
+                ok = ok and good
+                continue
+            l = op_local(s["rv"]["f"][0])
+            src = f.src(l) if l is not None else ("multi",)
+            if src[0] == "call" and callee_is(src[2], "from_bytes_unchecked"):
+                a = op_local(src[2]["args"][0])
+                sa = f.src(a) if a is not None else ("multi",)
+                good = sa[0] == "call" and callee_is(sa[2], "slice_ref", "clone") and "Bytes" in sa[2]["callee"]
+                why.append("wraps a Bytes handle onto the caller's buffer (reference-counted, never inlined)" if good else "wraps bytes of unknown ownership")
+                ok = ok and good
+            elif src[0] == "call" and callee_is(src[2], "clone") and "FastStr" in src[2]["callee"]:
+                # needs the same-buffer test
+                guard = False
+                for bb, ii, ss in f.assigns():
+                    rv = ss["rv"]
+                    if rv["k"] == "binop" and rv["op"] == "Eq":
+                        sides = []
+                        for o in (rv["a"], rv["b"]):
+                            ol = op_local(o)
+                            sl2, lv2 = backward_slice(f, [ol]) if ol is not None else (set(), [])
+                            is_ptr = any(lf[0] == "call" and callee_is(lf[2], "as_ptr") for lf in lv2)
+                            from_clone = any(lf[0] == "call" and lf[1] == src[1] for lf in lv2)
+                            from_self = any(lf[0] == "param" and lf[1] == 1 for lf in lv2)
+                            sides.append((is_ptr, from_clone, from_self))
+                        if all(x[0] for x in sides) and any(x[1] for x in sides) and any(x[2] and not x[1] for x in sides):
+                            from ..analysis import bool_switch_edges
+                            e = bool_switch_edges(f, ss["lhs"][0])
+                            if e and e[0] != e[1] and f.dominates(e[0], b):
+                                guard = True
+                why.append("wraps a FastStr clone under a same-buffer test" if guard else "wraps a FastStr clone unconditionally: an inlined string is copied, the reader's `&'de` results point into the copy and dangle once the reader is dropped")
+                ok = ok and guard
+            else:
+                why.append("wraps an owner of unknown provenance")
+                ok = False
+        ctx.ob("R01.14", f"to_json_slice:{ty}", ok, f.loc(), "; ".join(why) or "no JsonSlice is built")
+
+
 def r01_8(ctx):
     """no leak on an error path of the bitwise hand-over (shared with C16: R16.2)"""
     from .c16 import r16_2
@@ -1084,4 +1146,4 @@ def r01_s(ctx):
     ctx.include(c16.r16_6, 'R01.S')
 
 
-RULES = [("R01.1", r01_1), ("R01.2", r01_2), ("R01.2b", r01_2b), ("R01.3", r01_3), ("R01.4", r01_4), ("R01.5", r01_5), ("R01.6", r01_6), ("R01.7", r01_7), ("R01.8", r01_8), ("R01.9", r01_9), ("R01.10", r01_10), ("R01.11", r01_11), ("R01.12", r01_12), ("R01.13", r01_13), ("R01.W", r01_w), ("R01.S", r01_s)]
+RULES = [("R01.1", r01_1), ("R01.2", r01_2), ("R01.2b", r01_2b), ("R01.3", r01_3), ("R01.4", r01_4), ("R01.5", r01_5), ("R01.6", r01_6), ("R01.7", r01_7), ("R01.8", r01_8), ("R01.9", r01_9), ("R01.10", r01_10), ("R01.11", r01_11), ("R01.12", r01_12), ("R01.13", r01_13), ("R01.14", r01_14), ("R01.W", r01_w), ("R01.S", r01_s)]
